@@ -109,6 +109,13 @@ def _pieces(P, f, pc, dst_arg, src_args):
                                              f'lanes differ in coverage - {sv - written} element(s) of the destination are skipped there'))
         hg = [g for g in L.guards() if g.block is L.header]
         T = L.trip(hg[0]) if len(hg) == 1 else None
+        if T is None or (L.header in L.latches and len(L.body) == 1) or not hg:
+            # a loop tested at its end (do/while behind a guard): 1 + the number of passed tests, valid because the guard in front
+            # of it establishes at least one iteration
+            N_, rot_ = L.runs()
+            if N_ is not None and rot_:
+                hg = [g for g in L.guards() if g.block is L.exits[0][0]]
+                T = N_ if L.entry_positive(N_) else None
         if ab is None:
             problems.append((st, f'store address at line {st.line} is not an affine function of the iteration'))
             continue
@@ -198,7 +205,8 @@ def cover_rule(P, r, fname, src_args, dst_arg, size_arg):
                   rem2 = size - PolyCtx.div(size, 2) * 2
                   if p['w'] != 1 or not any(g == rem2 for g in guards):
                       undec.append(f'store at line {p["store"].line} outside a loop is not a single trailing byte under size % 2 == 1'); break
-                  if p['a'] != size - Poly.const(1):
+                  # the guard says size % 2 == 1, i.e. size - 1 == 2 * (size / 2): either spelling names the last byte
+                  if p['a'] != size - Poly.const(1) and p['a'] != PolyCtx.div(size, 2) * 2:
                       fails.append(f'trailing byte is written at offset {p["a"]}, not size-1')
                   # with the tail: previous end + (size % 2 == 1) must be size - 1; without it: previous end must be size
                   if (size - cur) != rem2:
